@@ -84,8 +84,27 @@ def worker(case, led):
     if int(np.prod(dims)) > 600:
         return
     ntr = 2 if tier == "quick" else 5
-    for trial in range(ntr + 1):
-        if trial < ntr:
+    star = kind.startswith("hub")
+    for trial in range(ntr + 1 + (1 if star else 0)):
+        if star and trial == ntr + 1:
+            # central-spin structure on the hub: one term per child, hub operator x child operator, so that the rows of the hub's table differ ONLY in what one
+            # child (the first, the second, ...) hands up - every child bond column has to take part in telling rows apart
+            from renormalizer.model import Op
+            hub_dof = created[0].dofs[0] if where == "root" else created[1].dofs[0]
+            first_kid = (nsets if where == "root" else 1 + nsets)
+            terms = []
+            for k_ in range(nch):
+                kid = created[first_kid + k_].dofs[0]
+                try:
+                    t_ = Op("sigma_z", hub_dof) * Op("sigma_z", kid) * float(rng.uniform(0.3, 1.5))
+                    if flavour == "holstein":
+                        raise ValueError
+                except Exception:
+                    t_ = None
+                if t_ is not None:
+                    terms.append(t_)
+            terms += real_terms(model, rng, 2)
+        elif trial < ntr:
             terms = real_terms(model, rng, int(rng.integers(1, 6)) if not kind.startswith("hub") else int(rng.integers(5, 10)))
             # the construction must be covariant under a common scale of the coefficients (units): tiny and huge absolute values
             sc = [1.0, 2e-10, 1.0, 3e5][trial % 4] if tier != "quick" else [1.0, 2e-10][trial % 2]
@@ -194,7 +213,7 @@ def check(run):
         for nn in (2, 3, 4, 5) if run.tier == "quick" else (2, 3, 4, 5, 6):
             for fl in ("spin", "spinqn", "holstein"):
                 cases.append(("enum", nn, fl, s, run.tier))
-    hubs = [(4, 1), (3, 2), (2, 3)] if run.tier == "quick" else [(4, 1), (3, 2), (2, 3), (5, 1), (4, 2), (3, 3), (5, 2)]
+    hubs = [(4, 1), (3, 2), (2, 3), (5, 1), (6, 1)] if run.tier == "quick" else [(4, 1), (3, 2), (2, 3), (5, 1), (4, 2), (3, 3), (5, 2), (6, 1), (7, 1)]
     for nch, nsets in hubs:
         for where in ("root", "inner"):
             for fl in ("spinqn", "spin") if run.tier == "quick" else ("spinqn", "spin", "holstein"):
